@@ -41,9 +41,24 @@ type linStats struct {
 }
 
 func linSetup(c *vCluster) error {
+	// under load the first leader may lose its lease while the schema is being committed: try again
+	var err error
+	for i := 0; i < 6; i++ {
+		if err = linSetup1(c); err == nil {
+			return nil
+		}
+		time.Sleep(300 * time.Millisecond)
+	}
+	return err
+}
+
+func linSetup1(c *vCluster) error {
 	l := c.Leader(10 * time.Second)
 	if l == nil {
 		return fmt.Errorf("no leader")
+	}
+	if rows, err := sQuery(l.Store, 3 /* strong */, "SELECT count(*) FROM reg"); err == nil && rows[0].Error == "" {
+		return c.WaitConverged(10 * time.Second) // an earlier attempt was committed after all
 	}
 	sq := []string{"CREATE TABLE seq(id INTEGER PRIMARY KEY, n INTEGER)", "INSERT INTO seq VALUES(1,0)",
 		"CREATE TABLE reg(k INTEGER PRIMARY KEY, v INTEGER, ver INTEGER)"}
